@@ -262,3 +262,18 @@ M('c04-wsgi-content-type-unguarded', 'C04', 'R6', 'falcon/request.py',
 M('c04-wsgi-path-encoded-twice', 'C04', 'R6', 'falcon/request.py',
   "            path = path.encode('iso-8859-1').decode('utf-8', 'replace')\n",
   "            path = path.encode('iso-8859-1').decode('utf-8', 'replace')\n            path.encode('iso-8859-1')\n", also=('C06',))
+
+M('c04-to-dict-loop-truthiness', 'C04', 'R4', 'falcon/http_error.py',
+  """        if self.description is not None:
+            obj['description'] = self.description
+
+        if self.code is not None:
+            obj['code'] = self.code
+
+        if self.link is not None:
+            obj['link'] = self.link
+""", """        for name in ('description', 'code', 'link'):
+            value = getattr(self, name)
+            if value:
+                obj[name] = value
+""")
